@@ -35,7 +35,7 @@ COMPONENTS = {"real": ["pel.peltool.peltool.main() in-process", "parse_user_data
 ASSUMPTIONS = ["fake plugins model well-behaved / raising / None-returning modules; plugins that call sys.exit, spawn threads or mutate the tool's globals are outside the model",
                "for SRCs with a valid word count below 9 only the valid words are compared (the property speaks of words 2..9)",
                "plugins returning non-dict JSON or non-JSON text are not generated (status under the property unclear)"]
-PROBES = ["behaviour:raise", "behaviour:none", "behaviour:importerror", "import:ImportError", "import:SyntaxError",
+PROBES = ["transient_import_failure", "skip_after_warm_cache", "behaviour:raise", "behaviour:none", "behaviour:importerror", "import:ImportError", "import:SyntaxError",
           "skip_plugins", "osrc_subdispatch", "bsrc_route", "m2c00_routed", "callout_desc", "near_miss_present",
           "same_module_after_fault"]
 
@@ -62,6 +62,12 @@ def run_history(plan, plugins):
         mark, imark = len(host.calls), len(host.import_log)
         r = w.run(["-p", "@/D", "-a", "-E"] + extra, order=plan["order"])
         ops.append({"kind": "a", "res": r, "calls": host.calls[mark:], "imports": host.import_log[imark:]})
+        if not plan["skip_plugins"]:
+            # after the parser caches are warm: the same decodes with -P must not run a parser any more
+            for p in plan["pels"][:2]:
+                mark, imark = len(host.calls), len(host.import_log)
+                r = w.run(["-f", "@/D/" + p["name"], "-E", "-P"])
+                ops.append({"kind": "warmP", "pel": p, "res": r, "calls": host.calls[mark:], "imports": host.import_log[imark:]})
         if plan["skip_plugins"]:
             # the summary / look-up / json modes decode too: with -P they must not touch a parser module either
             some = plan["pels"][0]["recipe"]
@@ -149,6 +155,7 @@ def execute(plan):
             bump("import:" + s["import"])
     any_fault = False
     faulted_modules = set()
+    pending = {m: spec.get("transient", 0) for m, spec in plugins.items() if spec.get("transient")}
     for op, top in zip(ops, tops):
         r = op["res"]
         h.update(r.stdout.encode())
@@ -164,13 +171,25 @@ def execute(plan):
                 vio.append(V("import-with-plugins-disabled", "%s imported %s" % (r.argv, bad_imports[:4])))
             if op["calls"]:
                 vio.append(V("call-with-plugins-disabled", "%s called %s" % (r.argv, [(c[0], c[1]) for c in op["calls"][:4]])))
+        if op["kind"] == "warmP":
+            bump("skip_after_warm_cache")
+            if op["calls"]:
+                vio.append(V("call-with-plugins-disabled", "%s (after earlier decodes with plugins enabled in the same process) called %s" % (
+                    r.argv, [(c[0], c[1]) for c in op["calls"][:4]])))
+            continue
         if op["kind"] == "other":
             continue
         # ---- calls: right module, right data, exactly once per section
         pels = [op["pel"]] if op["kind"] == "f" else sorted(plan["pels"], key=lambda p: p["name"])
         exp = []
+        exp_by_pel = {}
         for p in pels:
-            exp += [(p["name"],) + e for e in plug.expected_calls(p["recipe"], plugins, skip)]
+            ts = set()
+            ec = plug.expected_calls(p["recipe"], plugins, skip, pending, ts)
+            exp_by_pel[p["name"]] = (ec, ts)
+            if ts:
+                bump("transient_import_failure", len(ts))
+            exp += [(p["name"],) + e for e in ec]
         act = list(op["calls"])
         tr = []
         i = 0
@@ -232,7 +251,8 @@ def execute(plan):
                 vio.append(V("fault-not-contained-sections", "%s: sections %s vs healthy %s (recipe has %d)" % (r.argv, keys, tkeys, len(rec["sections"]))))
                 continue
             calls_by_section = {}
-            for e in plug.expected_calls(rec, plugins, skip):
+            ec, transient_idx = exp_by_pel.get(p["name"], ([], set()))
+            for e in ec:
                 calls_by_section.setdefault(e[0], []).append(e)
             for idx, (k, s) in enumerate(zip(keys, rec["sections"])):
                 sec, tsec = doc[k], tdoc[k]
@@ -243,6 +263,8 @@ def execute(plan):
                     ms = [plug.src_module(rec["creator"]) if rec["creator"] != "O" else plug.osrc_sub(s["ascii"]), plug.callout_module(rec["creator"])]
                     import_failed = any(m in plugins and plugins[m].get("import", "ok") != "ok" for m in ms)
                 if state and state.startswith("import-failed"):
+                    import_failed = True
+                if idx in transient_idx:
                     import_failed = True
                 healthy = all(b == "ok" for b in behaviours) and not import_failed
                 if healthy:
